@@ -27,7 +27,7 @@ CHECKS = {
         "thorough": {"checks": 200, "shards": 15, "timeout": 3000, "env": {"VERIF_C01_SAVE_N": "40"}},
         "second_process": {"test": "TestC01Recheck", "save_env": "VERIF_C01_SAVE", "env_dir": "VERIF_C01_RECHECK",
                            "env": {"GOMAXPROCS": "3", "TZ": "Pacific/Kiritimati", "GOGC": "25", "LANG": "tr_TR.UTF-8"}},
-        "rule": "rapid-generated block histories (genesis, 8-40 blocks, all tx types valid+invalid, evidence, absentees) executed on two independently opened replicas; non-trivial = a block with >=2 successful txs or a multi-staker reward round, plus a contract tx or a validator-set change; distinct = distinct (tx type,outcome) shape hashes",
+        "rule": "rapid-generated block histories (genesis, 8-40 blocks, all tx types valid+invalid, evidence, absentees; 30% of them from a mass-exit profile with 6 users, up to 12 txs per block and mostly staking/unstaking so that several stakes mature - several keys leave one ledger - in one block) executed on two independently opened replicas, on four when the history has a block removing >= 2 keys of one ledger; non-trivial = a block with >=2 successful txs or a multi-staker reward round, plus a contract tx or a validator-set change; distinct = distinct (tx type,outcome) shape hashes",
         "assumptions": COMMON_ASSUME + ["both replicas run in one OS process (thorough tier adds a second process)"],
     },
     "C05": {
@@ -93,7 +93,7 @@ CHECKS = {
     "C18": {
         "test": "TestC18", "level": "exploration", "engine": "ledger",
         "technique": "stateful model-based property testing of ledger.FinalityLedger against a map-with-two-overlays-and-history model",
-        "level_text": "Exploration with a reference model: generated sequences (<= 60 steps over 1..8 keys) of SetFinality/GetFinality/DelFinality, Set/Get/Del, Read, both iterators, Commit, historical reads at any version (incl. beyond the tip), close+reopen and the cancel operations in the shapes real callers use, applied to two real ledger instances and to the model; every read is compared with the model and the two instances must return equal versions and root hashes.",
+        "level_text": "Exploration with a reference model: generated sequences (<= 60 steps over 1..16 keys) of SetFinality/GetFinality/DelFinality, Set/Get/Del, Read, both iterators, Commit, historical reads at any version (incl. beyond the tip), close+reopen and the cancel operations in the shapes real callers use, applied to three real ledger instances and to the model; every read is compared with the model and the instances must return equal versions and root hashes. 35% of the sequences use 9..16 keys, 45% start from a populated committed tree and deletes come in bursts, so that commits removing several keys of a tree with >= 5 keys (where the removal order changes the IAVL root) are frequent (label feat:commit_removing_2+_keys_of_5+).",
         "level_note": "Items are fresh immutable values (aliasing of cached objects is a controller concern, covered by C05). Deletes are only generated for keys visible in the respective view, as every real caller does.",
         "quick": {"checks": 1500, "timeout": 600},
         "thorough": {"checks": 20000, "shards": 15, "timeout": 3000},
@@ -112,7 +112,7 @@ CHECKS = {
     },
 }
 
-CHAIN_NOTE = "Reference model as conformance checker: the observed DeliverTx code is an input; for code 0 the necessary conditions the property states are asserted and the specified effect is applied to the model; block-level rules are predicted by the model; after every block the relevant part of the committed state (read through tag-guarded accessors and queries) is compared. Contract txs in these histories come from two fixed templates with known effect (C17 covers general EVM programs). Known findings F9/F11 (chain start) are excluded by construction and counted."
+CHAIN_NOTE = "Reference model as conformance checker: the observed DeliverTx code is an input; for code 0 the necessary conditions the property states are asserted and the specified effect is applied to the model; block-level rules are predicted by the model; after every block the relevant part of the committed state (read through tag-guarded accessors and queries) is compared. Contract txs in these histories come from three fixed templates with known effect - a storage sink, a reverter and a contract that self-destructs to its caller - (C17 covers general EVM programs). While it executes the history the replica also serves mempool checks (CheckTx of the block's own txs before their delivery and of fresh valid txs at the call boundaries) and is stopped and reopened at generated block boundaries (labels feat:checktx_ok_served, feat:restart): the property has to hold on a node that does what real nodes do. Known findings F9/F11 (chain start) are excluded by construction and counted."
 
 def chain(test, technique, text, rule, quick=150, thorough=500, note=CHAIN_NOTE):
     return {"test": test, "level": "exploration", "engine": "chain", "technique": technique, "level_text": text, "level_note": note,
@@ -159,9 +159,9 @@ CHECKS["C17"] = {
     "test": "TestC17", "level": "exploration", "engine": "evm",
     "technique": "property-based differential testing against vanilla go-ethereum on a unified reference world, with generated contract programs",
     "level_text": "Exploration with a differential oracle: contract programs are generated from a small IR (SSTORE, LOGn, CALL/STATICCALL/DELEGATECALL with value, gas caps and revert-if-failed/record-result, CREATE of child templates, SELFDESTRUCT, REVERT/RETURN/INVALID, conditionals on calldata, expressions over SLOAD, CALLVALUE, BALANCE, SELFBALANCE, CALLER, ORIGIN, COINBASE, ...) and assembled in the harness; call targets are passed in calldata (EOAs touched or not, other contracts, self, precompiles 1-4, fresh addresses). Histories mix deployments, calls with value, plain transfers to contract addresses, native transfers/staking/withdrawals on the same accounts and read-only vm_call queries at the latest and recent heights. Every admitted contract-path tx is executed on a vanilla go-ethereum StateDB holding the model's balances and nonces (this chain's rule: a failed tx leaves no trace); success/failure, return data, gas used and logs must agree per tx, and after every block the balances and nonces of all accounts, the code and storage slots of every touched contract and the native code markers must agree; vm_call must equal a reference call on a copy of the world and a quiet twin must commit the same hashes.",
-    "level_note": "go-ethereum's interpreter (as linked by the repository) is the reference EVM: an interpreter bug shared by both sides is invisible. Precompile 1 is replaced by the repository for both sides alike. Known finding F10b (self-destructed contracts keep nonce/marker natively) is excluded by retiring such addresses (counted).",
-    "quick": {"checks": 70, "timeout": 900},
-    "thorough": {"checks": 250, "shards": 15, "timeout": 3000},
-    "rule": "rapid-generated programs and histories of 6-22 blocks; non-trivial = a successful call of a generated contract in a history that also has successful native value operations; labels count compared txs, reference-side failures (revert/out-of-gas/nested), inner creates, self-destructs, logs, burns and compared vm_calls; distinct = distinct shape hashes",
+    "level_note": "go-ethereum's interpreter (as linked by the repository) is the reference EVM: an interpreter bug shared by both sides is invisible. Precompile 1 is replaced by the repository for both sides alike. Findings F10a/F10b/F10c are repaired in the repository; their stored histories are re-executed on every run and must pass. Addresses of self-destructed contracts stay addressable; for a later plain transfer to one the check accepts the EVM or the native path (no property fixes it) and checks the charge of the path taken; the native code marker the application keeps for such addresses is not compared.",
+    "quick": {"checks": 150, "timeout": 900},
+    "thorough": {"checks": 400, "shards": 15, "timeout": 3000},
+    "rule": "rapid-generated programs and histories of 6-22 blocks; 35% of the programs start with a pattern group around the ledger<->EVM synchronisation (a call that is starved of gas or sent to another selector and whose failure is tolerated, followed by more value to the same or another argument address; a callee that pays somebody and then reverts); non-trivial = a successful call of a generated contract in a history that also has successful native value operations; labels count compared txs, reference-side failures (revert/out-of-gas/nested), successful txs containing a failed inner frame (feat:evm_ok_tx_with_failed_inner_frame), value sent later to the target of a failed frame, addresses first touched inside a failed frame and touched again, inner creates, self-destructs, logs, burns and compared vm_calls; distinct = distinct shape hashes",
     "assumptions": COMMON_ASSUME,
 }
